@@ -454,6 +454,36 @@ func vfC14Scenarios() []vfScenario {
 			att := stuck.session() != nil && stuck.session().getSub(g.grp) != nil
 			obs.Outcome += fmt.Sprintf(",stuck-attached=%v,stuck-ended=%v", att, stuck.ended)
 		}),
+		// a session whose connection has stopped taking data is attached to 70 groups of one owner; the
+		// owner's account is deleted: 70 topics terminate and each tells the stalled session to forget it
+		// (the session's notice queue holds 64). Once the connection drains, the session lists none of them.
+		vfRaceScenario("detach-queue-overflow", [2]int{0, 1}, false, func(g *vfGW, tr *[]vfReqTrack) {
+			vsched.Zone(false)
+			for i := 0; i < 70; i++ {
+				name := ""
+				_, fr := g.cl["x1"].Req(`{"sub":{"id":"$ID","topic":"new%d"}}`, i)
+				for _, f := range fr {
+					if f.Msg.Ctrl != nil && strings.HasPrefix(f.Msg.Ctrl.Topic, "grp") {
+						name = f.Msg.Ctrl.Topic
+					}
+				}
+				if code, _ := g.cl["mb"].Req(`{"sub":{"id":"$ID","topic":"%s"}}`, name); code >= 300 {
+					vsched.Fail("harness", fmt.Sprintf("sub to extra group %d: %d", i, code))
+				}
+			}
+			for _, c := range g.cl {
+				c.Take()
+			}
+			g.cl["mb"].gate = make(chan struct{})
+			if code, _ := g.cl["o1"].Req(`{"pub":{"id":"$ID","topic":"%s","content":"stall"}}`, g.grp); code != 202 {
+				vsched.Fail("harness", fmt.Sprintf("stalling publish: %d", code))
+			}
+			vsched.Zone(true)
+			g.post(tr, "r1", "del", "", fmt.Sprintf(`,"what":"user","user":"%s","hard":true`, g.users["x"].id()))
+			vsched.Quiesce()
+			vsched.Zone(false)
+			vsched.Close(g.cl["mb"].gate) // the connection drains at last
+		}, nil),
 		// last two p2p users unsubscribe concurrently, one re-subscribes
 		vfRaceScenario("p2p-unsub-unsub-resub", [2]int{1, 2}, true, func(g *vfGW, tr *[]vfReqTrack) {
 			g.post(tr, "o1", "leave", g.users["m"].id(), `,"unsub":true`)
